@@ -178,8 +178,11 @@ def raw_storage_and_namespaces(W, chk):
         roots = {re.sub(r"::\{.*", "", o) for o in owners}
         if len(roots) > 1:
             # reasoned exception: the v1.3.0 migration deliberately re-reads "pools" with the old layout
-            if all(("migrate_to_v130" in r or r.endswith("state::POOLS")) for r in roots) and l in ("pools", "pools__lp_asset"):
-                chk.ok("CONST-namespace", inst, "shared only with migrate_to_v130::OLD_POOLS (deliberate)")
+            def _local(r):
+                o = W.F.get(r.rsplit("::", 1)[0]) if "::" in r else None
+                return o is not None and o.kind == "fn"
+            if sum(1 for r in roots if not _local(r)) == 1 and l in ("pools", "pools__lp_asset"):
+                chk.ok("CONST-namespace", inst, "shared only with an old-layout item declared inside a migration function (deliberate)")
                 continue
             chk.fail("CONST-namespace", inst, "namespace used by several storage items: %s" % sorted(roots), owners[0])
         else:
